@@ -5,9 +5,19 @@
 //   --schedules FILE      replay each schedule of FILE (one JSON array per line)
 //   --random N --seed S [--pct D]   N random controlled executions
 //   --randprog            with --random: also draw a random program per execution
+//   --stress N --seed S [--cap K]   E5: N free-running rounds (real threads, no controller, hooks inert),
+//                         one observation record per round (validated by spec/mpmc/MpmcObs.tla)
 #include <dispenso/mpmc_ring_buffer.h>
 
+#include <limits.h>
+#include <linux/futex.h>
+#include <sched.h>
+#include <sys/syscall.h>
 #include <unistd.h>
+
+#include <atomic>
+#include <chrono>
+#include <thread>
 
 #include "../ctl/ctl.h"
 #include "../ctl/drv_common.h"
@@ -244,8 +254,460 @@ static int runAll(const drv::Args& a, int cap) {
   return 0;
 }
 
+// =========================================================================== E5: free-running rounds
+// P producers x C consumers (1..3 each) hammer one small ring truly concurrently.  Producer p pushes the
+// values p*100000+1 .. p*100000+n[p] in that order (try_push(T&&) / try_push(const T&) / try_emplace /
+// try_push_batch, retrying what was not accepted); the consumers pop (try_pop(T&) / try_pop() /
+// try_pop_into) until `target` elements have been received in total.  Then - everything quiescent - the
+// main thread observes size/empty/full, pops some more (`drain`), optionally fills the ring up with one
+// batch, and destroys the ring.  The record holds only what the public API returned, per thread in program
+// order, plus the payload lifetime counters.  No C++ check decides anything: MpmcObs.tla does.
+namespace stress {
+
+const int kBase = 100000; // value = producer * kBase + sequence number
+const int kAlive = 0x600DF00D, kDead = 0x0DEAD000;
+
+// lifetime accounting without shared state on the hot path: plain thread-local counters, folded into the
+// round's totals by each thread when it is done
+thread_local long long tlCtor = 0, tlDtor = 0, tlErr = 0;
+
+struct Pay {
+  int v;
+  volatile int magic; // volatile: the store in the destructor must survive dead-store elimination
+  explicit Pay(int x) noexcept : v(x), magic(kAlive) {
+    ++tlCtor;
+  }
+  Pay(const Pay& o) noexcept : v(o.v), magic(kAlive) {
+    ++tlCtor;
+    if (o.magic != kAlive)
+      ++tlErr; // copy of a dead object
+  }
+  Pay(Pay&& o) noexcept : v(o.v), magic(kAlive) {
+    ++tlCtor;
+    if (o.magic != kAlive)
+      ++tlErr; // move from a dead object
+    o.v = 0;
+  }
+  Pay& operator=(Pay&& o) noexcept {
+    if (magic != kAlive || o.magic != kAlive)
+      ++tlErr;
+    v = o.v;
+    o.v = 0;
+    return *this;
+  }
+  Pay& operator=(const Pay& o) noexcept {
+    if (magic != kAlive || o.magic != kAlive)
+      ++tlErr;
+    v = o.v;
+    return *this;
+  }
+  ~Pay() {
+    ++tlDtor;
+    if (magic != kAlive)
+      ++tlErr; // destroyed twice / never constructed
+    magic = kDead;
+  }
+};
+
+static inline void cpuRelax() {
+#if defined(__x86_64__) || defined(__i386__)
+  __builtin_ia32_pause();
+#else
+  asm volatile("" ::: "memory");
+#endif
+}
+static inline void spinFor(unsigned n) {
+  for (volatile unsigned k = 0; k < n; ++k) {
+  }
+}
+// The box is shared (often oversubscribed): idle threads sleep in the kernel, threads that wait for a peer
+// that may be descheduled give their time slice away.  On an idle box none of this is reached.
+static void futexWait(std::atomic<uint32_t>& w, uint32_t val) {
+  syscall(SYS_futex, reinterpret_cast<uint32_t*>(&w), FUTEX_WAIT_PRIVATE, val, nullptr, nullptr, 0);
+}
+static void futexWakeAll(std::atomic<uint32_t>& w) {
+  syscall(SYS_futex, reinterpret_cast<uint32_t*>(&w), FUTEX_WAKE_PRIVATE, INT_MAX, nullptr, nullptr, 0);
+}
+// returns the new value of w once it differs from `old`
+static uint32_t awaitChange(std::atomic<uint32_t>& w, uint32_t old) {
+  for (unsigned k = 0;; ++k) {
+    uint32_t v = w.load(std::memory_order_acquire);
+    if (v != old)
+      return v;
+    if (k < 3000)
+      cpuRelax();
+    else
+      futexWait(w, old);
+  }
+}
+struct Yielder {
+  unsigned n = 0;
+  void operator()() {
+    if (++n < 2000)
+      cpuRelax();
+    else
+      sched_yield();
+  }
+};
+
+const int kMaxP = 3, kMaxC = 3;
+const uint32_t kShutdown = 0xFFFFFFFFu;
+
+struct RoundCfg {
+  int target = 0;
+  int n[kMaxP] = {0, 0, 0};
+  uint64_t seed = 0;
+  unsigned gap[kMaxP + kMaxC] = {0, 0, 0, 0, 0, 0}; // max. spin between two operations of thread i
+};
+
+// The round word carries (round index, np, nc): a worker decides from the word alone whether it takes part,
+// and only the participants (for which the main thread waits) read cfg.
+static inline uint32_t roundWord(long long idx, int np, int nc) {
+  return (uint32_t)(((idx + 1) & 0x7FFFFFF) << 4) | (uint32_t)((np - 1) << 2) | (uint32_t)(nc - 1);
+}
+
+struct alignas(64) Shared {
+  std::atomic<uint32_t> round{0};
+  alignas(64) std::atomic<int> arrived{0};
+  alignas(64) std::atomic<uint32_t> done{0};
+  alignas(64) std::atomic<long long> consumed{0};
+  alignas(64) std::atomic<long long> ctor{0};
+  std::atomic<long long> dtor{0}, err{0}, pfail{0}, cfail{0};
+  std::atomic<void*> ring{nullptr};
+  RoundCfg cfg;
+  std::vector<int> got[kMaxC];
+  // watchdog
+  std::atomic<long long> beat{0};
+  std::atomic<int> finished{0};
+};
+static Shared sh; // static: stuck threads may outlive the function that started them
+
+template <class Ring>
+static void producer(Ring& ring, int p, const RoundCfg& c, uint64_t rng) {
+  const int cap = (int)Ring::capacity();
+  int next = 1, n = c.n[p];
+  long long fails = 0;
+  unsigned gap = c.gap[p], streak = 0;
+  while (next <= n) {
+    unsigned r = (unsigned)(ctl::splitmix(rng) % 16);
+    int before = next;
+    if (r < 4) {
+      Pay x((p + 1) * kBase + next);
+      if (ring.try_push(std::move(x)))
+        ++next;
+    } else if (r < 7) {
+      Pay x((p + 1) * kBase + next);
+      if (ring.try_push(x))
+        ++next;
+    } else if (r < 11) {
+      if (ring.try_emplace((p + 1) * kBase + next))
+        ++next;
+    } else {
+      int want = 1 + (int)(ctl::splitmix(rng) % (unsigned)(cap + 1)); // cap + 1: the count is clamped
+      if (want > n - next + 1)
+        want = n - next + 1;
+      alignas(Pay) char buf[sizeof(Pay) * 8];
+      Pay* items = reinterpret_cast<Pay*>(buf);
+      for (int i = 0; i < want; ++i)
+        new (items + i) Pay((p + 1) * kBase + next + i);
+      size_t k = ring.try_push_batch(items, (size_t)want);
+      for (int i = 0; i < want; ++i)
+        items[i].~Pay();
+      next += (int)k;
+    }
+    if (next == before) {
+      ++fails;
+      if (++streak >= 64) // full for a long time: the consumers are probably descheduled
+        sched_yield();
+    } else
+      streak = 0;
+    if (gap)
+      spinFor((unsigned)(ctl::splitmix(rng) % gap));
+  }
+  sh.pfail.fetch_add(fails, std::memory_order_relaxed);
+}
+
+template <class Ring>
+static int popOnce(Ring& ring, unsigned variant) {
+  if (variant == 0) {
+    Pay item(0);
+    return ring.try_pop(item) ? item.v : 0;
+  }
+  if (variant == 1) {
+    auto r = ring.try_pop();
+    return r ? r.value().v : 0;
+  }
+  alignas(Pay) char buf[sizeof(Pay)];
+  Pay* p = reinterpret_cast<Pay*>(buf);
+  if (ring.try_pop_into(p)) {
+    int v = p->v;
+    p->~Pay();
+    return v;
+  }
+  return 0;
+}
+
+template <class Ring>
+static void consumer(Ring& ring, int ci, const RoundCfg& c, uint64_t rng) {
+  std::vector<int>& got = sh.got[ci];
+  long long fails = 0;
+  unsigned gap = c.gap[kMaxP + ci], streak = 0;
+  while (sh.consumed.load(std::memory_order_relaxed) < c.target) {
+    int v = popOnce(ring, (unsigned)(ctl::splitmix(rng) % 3));
+    if (v != 0) {
+      got.push_back(v);
+      sh.consumed.fetch_add(1, std::memory_order_relaxed);
+      streak = 0;
+    } else {
+      ++fails;
+      if (++streak >= 64) // empty for a long time: the producers are probably descheduled
+        sched_yield();
+    }
+    if (gap)
+      spinFor((unsigned)(ctl::splitmix(rng) % gap));
+  }
+  sh.cfail.fetch_add(fails, std::memory_order_relaxed);
+}
+
+// worker i: 0..2 producers, 3..5 consumers
+template <class Ring>
+static void worker(int i) {
+  uint32_t seen = 0;
+  for (;;) {
+    uint32_t w = awaitChange(sh.round, seen);
+    if (w == kShutdown)
+      return;
+    seen = w;
+    int np = (int)((w >> 2) & 3) + 1, nc = (int)(w & 3) + 1;
+    bool isProd = i < kMaxP;
+    int k = isProd ? i : i - kMaxP;
+    if (k >= (isProd ? np : nc))
+      continue; // sits this round out (and does not look at cfg: the main thread does not wait for it)
+    const RoundCfg& c = sh.cfg;
+    Ring& ring = *static_cast<Ring*>(sh.ring.load(std::memory_order_acquire));
+    uint64_t rng = c.seed * 0x9e3779b97f4a7c15ULL + (uint64_t)(i + 1) * 0xbf58476d1ce4e5b9ULL;
+    long long c0 = tlCtor, d0 = tlDtor, e0 = tlErr;
+    unsigned offset = (unsigned)(ctl::splitmix(rng) % 96);
+    // start barrier: everybody leaves it within a cache miss of each other, then a small random offset
+    sh.arrived.fetch_add(1, std::memory_order_acq_rel);
+    Yielder y;
+    while (sh.arrived.load(std::memory_order_acquire) < np + nc)
+      y();
+    spinFor(offset);
+    if (isProd)
+      producer(ring, k, c, rng);
+    else
+      consumer(ring, k, c, rng);
+    sh.ctor.fetch_add(tlCtor - c0, std::memory_order_relaxed);
+    sh.dtor.fetch_add(tlDtor - d0, std::memory_order_relaxed);
+    sh.err.fetch_add(tlErr - e0, std::memory_order_relaxed);
+    if (sh.done.fetch_add(1, std::memory_order_acq_rel) + 1 == (uint32_t)(np + nc))
+      futexWakeAll(sh.done);
+  }
+}
+
+static void appendArr(std::string& s, const std::vector<int>& v) {
+  s += '[';
+  for (size_t i = 0; i < v.size(); ++i) {
+    if (i)
+      s += ',';
+    s += std::to_string(v[i]);
+  }
+  s += ']';
+}
+
+struct Out {
+  FILE* f = nullptr;
+  std::mutex mu;
+  long long rounds = 0;
+  int np = 0, nc = 0;
+  std::chrono::steady_clock::time_point deadline;
+};
+static Out out;
+
+// up to `rounds` rounds on rings of type Ring (when a round gets stuck the watchdog ends the process)
+template <class Ring>
+static void runRounds(long long rounds, uint64_t& rng, long long& pfail, long long& cfail) {
+  const int cap = (int)Ring::capacity();
+  sh.round.store(0, std::memory_order_release);
+  std::vector<std::thread> ths;
+  for (int i = 0; i < kMaxP + kMaxC; ++i)
+    ths.emplace_back(worker<Ring>, i);
+  alignas(Ring) static char storage[sizeof(Ring)];
+  for (long long r = 0; r < rounds; ++r) {
+    if ((r & 63) == 0 && std::chrono::steady_clock::now() > out.deadline)
+      break;
+    RoundCfg& c = sh.cfg;
+    int np = 1 + (int)(ctl::splitmix(rng) % kMaxP);
+    int nc = 1 + (int)(ctl::splitmix(rng) % kMaxC);
+    int total = 0;
+    for (int p = 0; p < kMaxP; ++p) {
+      c.n[p] = p < np ? 1 + (int)(ctl::splitmix(rng) % 10) : 0;
+      total += c.n[p];
+    }
+    int leave = (ctl::splitmix(rng) % 3) ? (int)(ctl::splitmix(rng) % (unsigned)(cap + 1)) : 0;
+    c.target = total > leave ? total - leave : 0;
+    c.seed = ctl::splitmix(rng);
+    // pace: mostly flat out; sometimes slow producers (ring mostly empty) or slow consumers (mostly full)
+    unsigned pace = (unsigned)(ctl::splitmix(rng) % 4);
+    for (int i = 0; i < kMaxP + kMaxC; ++i)
+      c.gap[i] = 0;
+    if (pace == 1)
+      for (int i = 0; i < kMaxP; ++i)
+        c.gap[i] = 1 + (unsigned)(ctl::splitmix(rng) % 120);
+    else if (pace == 2)
+      for (int i = kMaxP; i < kMaxP + kMaxC; ++i)
+        c.gap[i] = 1 + (unsigned)(ctl::splitmix(rng) % 120);
+    for (int i = 0; i < kMaxC; ++i)
+      sh.got[i].clear();
+    sh.arrived.store(0, std::memory_order_relaxed);
+    sh.done.store(0, std::memory_order_relaxed);
+    sh.consumed.store(0, std::memory_order_relaxed);
+    sh.ctor.store(0, std::memory_order_relaxed);
+    sh.dtor.store(0, std::memory_order_relaxed);
+    sh.err.store(0, std::memory_order_relaxed);
+    sh.pfail.store(0, std::memory_order_relaxed);
+    sh.cfail.store(0, std::memory_order_relaxed);
+    long long c0 = tlCtor, d0 = tlDtor, e0 = tlErr;
+    Ring* ring = new (storage) Ring();
+    sh.ring.store(ring, std::memory_order_release);
+    out.np = np;
+    out.nc = nc;
+    sh.beat.fetch_add(1, std::memory_order_release);
+    sh.round.store(roundWord(out.rounds, np, nc), std::memory_order_release); // go
+    futexWakeAll(sh.round);
+    for (uint32_t d = 0; d != (uint32_t)(np + nc);)
+      d = awaitChange(sh.done, d);
+    // ---- quiescent from here on
+    int sz = (int)ring->size(), em = ring->empty() ? 1 : 0, fu = ring->full() ? 1 : 0;
+    std::vector<int> drain;
+    int attempts = (int)(ctl::splitmix(rng) % (unsigned)((sz < 0 || sz > 8 ? 8 : sz) + 2));
+    for (int i = 0; i < attempts; ++i)
+      drain.push_back(popOnce(*ring, (unsigned)(ctl::splitmix(rng) % 3)));
+    int sz2 = (int)ring->size();
+    int fill = (int)(ctl::splitmix(rng) % 2), qb = 0, qf = 0, fu2 = 0, sz3 = sz2;
+    if (fill) {
+      alignas(Pay) char buf[sizeof(Pay) * 8];
+      Pay* items = reinterpret_cast<Pay*>(buf);
+      for (int i = 0; i < cap + 1; ++i)
+        new (items + i) Pay(9 * kBase + 1 + i);
+      qb = (int)ring->try_push_batch(items, (size_t)(cap + 1));
+      for (int i = 0; i < cap + 1; ++i)
+        items[i].~Pay();
+      qf = ring->try_emplace(9 * kBase + 99) ? 1 : 0;
+      fu2 = ring->full() ? 1 : 0;
+      sz3 = (int)ring->size();
+    }
+    long long dBefore = tlDtor;
+    ring->~Ring();
+    int dd = (int)(tlDtor - dBefore); // elements the destructor destroyed
+    long long live = (sh.ctor.load() + tlCtor - c0) - (sh.dtor.load() + tlDtor - d0);
+    long long errs = sh.err.load() + tlErr - e0;
+    pfail += sh.pfail.load();
+    cfail += sh.cfail.load();
+    std::string s = "{\"e\":\"Round\",\"round\":" + std::to_string(out.rounds) + ",\"cap\":" + std::to_string(cap) +
+        ",\"np\":" + std::to_string(np) + ",\"nc\":" + std::to_string(nc) + ",\"n\":";
+    appendArr(s, std::vector<int>(c.n, c.n + np));
+    s += ",\"got\":[";
+    for (int i = 0; i < nc; ++i) {
+      if (i)
+        s += ',';
+      appendArr(s, sh.got[i]);
+    }
+    s += "],\"sz\":" + std::to_string(sz) + ",\"em\":" + std::to_string(em) + ",\"fu\":" + std::to_string(fu) +
+        ",\"drain\":";
+    appendArr(s, drain);
+    s += ",\"sz2\":" + std::to_string(sz2) + ",\"fill\":" + std::to_string(fill) + ",\"qb\":" + std::to_string(qb) +
+        ",\"qf\":" + std::to_string(qf) + ",\"fu2\":" + std::to_string(fu2) + ",\"sz3\":" + std::to_string(sz3) +
+        ",\"dd\":" + std::to_string(dd) + ",\"live\":" + std::to_string(live) + ",\"errs\":" + std::to_string(errs) +
+        ",\"stuck\":0}\n";
+    {
+      std::lock_guard<std::mutex> lk(out.mu);
+      fputs(s.c_str(), out.f);
+      ++out.rounds;
+    }
+  }
+  sh.round.store(kShutdown, std::memory_order_release);
+  futexWakeAll(sh.round);
+  for (auto& t : ths)
+    t.join();
+}
+
+static int run(const drv::Args& a) {
+  out.f = fopen(a.str("out", "stress.ndjson").c_str(), "w");
+  if (!out.f)
+    return 2;
+  long long rounds = a.num("stress", 1000);
+  uint64_t rng = (uint64_t)a.num("seed", 1) * 0x9e3779b97f4a7c15ULL + 11;
+  // --maxms: stop starting new rounds after that much wall-clock time (the number of rounds that were run is
+  // reported); keeps the engine within its budget when the machine is oversubscribed
+  out.deadline = std::chrono::steady_clock::now() + std::chrono::milliseconds(a.num("maxms", 3600 * 1000));
+  // watchdog: a round that does not finish within 10 s of wall-clock time is reported as such; the
+  // process cannot continue (its threads spin inside the ring), so the record is the last one
+  std::thread([]() {
+    long long last = -1;
+    auto t0 = std::chrono::steady_clock::now();
+    while (!sh.finished.load(std::memory_order_acquire)) {
+      std::this_thread::sleep_for(std::chrono::milliseconds(50));
+      long long b = sh.beat.load(std::memory_order_acquire);
+      auto now = std::chrono::steady_clock::now();
+      if (b != last) {
+        last = b;
+        t0 = now;
+      } else if (now - t0 > std::chrono::seconds(10) && !sh.finished.load(std::memory_order_acquire)) {
+        std::lock_guard<std::mutex> lk(out.mu);
+        fprintf(out.f, "{\"e\":\"Round\",\"round\":%lld,\"np\":%d,\"nc\":%d,\"target\":%d,\"consumed\":%lld,\"stuck\":1}\n",
+                out.rounds, out.np, out.nc, sh.cfg.target, sh.consumed.load());
+        fflush(out.f);
+        printf("DRIVER executions=%lld steps=%lld completed=%lld deadlocks=1 diverged=0 stuck=0\n", out.rounds + 1,
+               out.rounds + 1, out.rounds);
+        fflush(stdout);
+        _exit(0);
+      }
+    }
+  }).detach();
+  long long pfail = 0, cfail = 0;
+  // blocks of rounds per capacity (the worker threads persist within a block)
+  long long left = rounds;
+  int phase = 0, only = (int)a.num("cap", 0);
+  while (left > 0 && std::chrono::steady_clock::now() <= out.deadline) {
+    long long blk = left < 2000 ? left : 2000;
+    long long before = out.rounds;
+    int cap = only ? only : 2 + phase % 3;
+    if (cap == 2)
+      runRounds<dispenso::MpmcRingBuffer<Pay, 2>>(blk, rng, pfail, cfail);
+    else if (cap == 3)
+      runRounds<dispenso::MpmcRingBuffer<Pay, 3, false>>(blk, rng, pfail, cfail);
+    else if (cap == 4)
+      runRounds<dispenso::MpmcRingBuffer<Pay, 4>>(blk, rng, pfail, cfail);
+    else
+      return 3;
+    left -= blk;
+    ++phase;
+    if (out.rounds - before < blk)
+      break; // out of time
+  }
+  sh.finished.store(1, std::memory_order_release);
+  {
+    std::lock_guard<std::mutex> lk(out.mu);
+    fclose(out.f);
+  }
+  printf("STRESS requested=%lld failed_pushes=%lld failed_pops=%lld\n", rounds, pfail, cfail);
+  printf("DRIVER executions=%lld steps=%lld completed=%lld deadlocks=0 diverged=0 stuck=0\n", out.rounds, out.rounds,
+         out.rounds);
+  fflush(stdout);
+  return 0;
+}
+
+} // namespace stress
+
 int main(int argc, char** argv) {
   drv::Args a(argc, argv);
+  if (a.has("stress")) {
+    int rc = stress::run(a);
+    fflush(stdout);
+    _exit(rc);
+  }
   int cap = (int)a.num("cap", 2);
   int rc;
   if (cap == 2)
